@@ -6,6 +6,7 @@ import (
 	"io"
 	"math/big"
 	"math/rand"
+	"sort"
 	"sync"
 
 	"github.com/crate-crypto/go-ipa/bandersnatch/fp"
@@ -349,4 +350,15 @@ func limbNeighbours(m *big.Int, rng *rand.Rand) []*big.Int {
 		}
 	}
 	return res
+}
+
+// sortedKeys gives a deterministic order over a name->value table, so that sharding and per-case PRNG use are
+// the same in every child and on replay.
+func sortedKeys[V any](m map[string]V) []string {
+	ks := make([]string, 0, len(m))
+	for k := range m {
+		ks = append(ks, k)
+	}
+	sort.Strings(ks)
+	return ks
 }
